@@ -150,10 +150,16 @@ def extension(v, base, lid='xt', flags=()):
         xe1['forms'] = [{'id': B + 'f3', 'external': True,
                          'tags': [{'text': u('xtagtext'), 'category': u('category')}],
                          'pronunciations': [{'text': u('xprontext'), 'variety': u('variety')}]},
-                        {'writtenForm': 'extension form', 'id': P + 'f9'},
+                        # new forms carry annotations of their own: they belong to these forms, not to
+                        # the base form that has the same position
+                        {'writtenForm': 'extension form', 'id': P + 'f9',
+                         'tags': [{'text': u('newformtag'), 'category': u('category')}],
+                         'pronunciations': [{'text': u('newformpron')}]},
                         {'id': B + 'f1', 'external': True,
                          'tags': [{'text': u('xtagtext'), 'category': u('category')}],
-                         'pronunciations': [{'text': u('xprontext')}]}]
+                         'pronunciations': [{'text': u('xprontext')}]},
+                        {'writtenForm': 'extension form without id',
+                         'tags': [{'text': u('idlessformtag'), 'category': u('category')}]}]
     ne = {'id': P + 'e1', 'meta': _meta(u, 'creator'),
           'lemma': {'writtenForm': 'lemma two', 'partOfSpeech': 'n'},
           'senses': [{'id': P + 's1', 'synset': P + 'ss1', 'meta': None},
